@@ -25,6 +25,43 @@ let rop_of_tok s =
        | _ -> failwith ("seek: " ^ s))
   | _ -> failwith ("rop: " ^ s)
 
+(* writer options: comma separated list of O (any other option), E / X
+   (WithEncryption of configuration 1 / 2), C(...) / L(...) (a WriterConfig built
+   from the options listed, used as an option) *)
+let wopts_of_tok (s : string) : Model.wopt list =
+  let n = String.length s in
+  let pos = ref 0 in
+  let rec plist () =
+    let items = ref [] in
+    let continue = ref true in
+    while !continue do
+      items := pitem () :: !items;
+      if !pos < n && s.[!pos] = ',' then incr pos else continue := false
+    done;
+    List.rev !items
+  and pitem () =
+    if !pos >= n then failwith ("options: " ^ s);
+    let ch = s.[!pos] in
+    incr pos;
+    match ch with
+    | 'O' -> Model.WOther
+    | 'E' -> Model.WEnc (n_of_hex "1")
+    | 'X' -> Model.WEnc (n_of_hex "2")
+    | 'C' | 'L' ->
+        if !pos >= n || s.[!pos] <> '(' then failwith ("options: " ^ s);
+        incr pos;
+        let l = if !pos < n && s.[!pos] = ')' then [] else plist () in
+        if !pos >= n || s.[!pos] <> ')' then failwith ("options: " ^ s);
+        incr pos;
+        Model.WConf l
+    | _ -> failwith ("options: " ^ s)
+  in
+  if s = "_" || s = "" then [] else begin
+    let l = plist () in
+    if !pos <> n then failwith ("options: " ^ s);
+    l
+  end
+
 let tok_of_wmod (m : Model.wmodule) =
   hex_of_z (Model.mtype_code m.Model.m_type) ^ ":" ^ tok_of_bytes m.Model.m_aad
 
@@ -80,5 +117,20 @@ let () =
   register "c18.accepts" (function
     | [lay] -> tok_of_bool (Model.oracle_accepts (layout_of_tok lay))
     | _ -> failwith "c18.accepts args");
+  (* c18.envelope <plaintext length> <bytes following the length field>
+     -> <the 4 bytes of the length field> <does the streamed reader accept it 0|1> *)
+  register "c18.envelope" (function
+    | [pl; avail] ->
+        let (field, ok) = Model.oracle_envelope (n_of_hex pl) (n_of_hex avail) in
+        tok_of_bytes field ^ " " ^ tok_of_bool ok
+    | _ -> failwith "c18.envelope args");
+  (* c18.effective <d|c> <options> -> number of the EncryptionConfig the writer of the
+     file uses (0: none).  d: NewGenericWriter / NewWriter; c: NewSortingWriter / Write *)
+  register "c18.effective" (function
+    | [ct; opts] ->
+        (match Model.oracle_effective (ct = "c") (wopts_of_tok opts) with
+         | Some c -> hex_of_n c
+         | None -> "0")
+    | _ -> failwith "c18.effective args");
   register "c18.limits" (function
     | _ -> hex_of_n Model.max_int16 ^ " " ^ hex_of_n Model.max_row_groups ^ " " ^ hex_of_n Model.max_column_index)
